@@ -525,6 +525,17 @@ class TBRMatchedMarkets:
       the set of feasible designs found given the design parameters,
         with their corresponding treatment/control groups and score.
     """
+    # The search fills in default group size ranges in self.parameters. Work on
+    # a private copy so that the caller's parameter object is left unmodified.
+    parameters = self.parameters
+    self.parameters = copy.copy(parameters)
+    try:
+      return self._greedy_search()
+    finally:
+      self.parameters = parameters
+
+  def _greedy_search(self):
+    """Implementation of greedy_search()."""
     budget_range = self.parameters.budget_range
     results = heapdict.HeapDict(size=self.parameters.n_designs)
 
